@@ -49,11 +49,11 @@ def execute(program, ctx):
     from sim.core import Violation, HarnessError
     from sim.props.C16 import model_steps
 
-    T = ts.run_rar(program)
+    T = ts.run_rar(dict(program, prop=ID))
     if not T.hook:
         raise HarnessError("hook missing: jinns.solver._rar._VERIF is off (JINNS_VERIF=1 not honoured)")
     P = T.P
-    n = program["segments"][0]["n"]
+    n = sum(sg["n"] for sg in program["segments"])
     rar = program["rar"]
     rp = rar["params"]
     d = program["data"]
@@ -62,7 +62,7 @@ def execute(program, ctx):
 
     def fail(inv, what, details, step=None):
         eqs = "equal-starts" if rar.get("n_start") == rar.get("nt_start") or len([k for k in ("n_start", "nt_start") if k in rar]) < 2 else "different-starts"
-        raise Violation(ID, inv, f"{ID}.{inv}/{eq}/{eqs}/{what}", dict(details, rar=rar, n_iter=n), step)
+        raise Violation(ID, inv, f"{ID}.{inv}/{eq}/{eqs}/{what}", dict(details, rar=rar, segments=program["segments"]), step)
 
     def ms(rows):
         rows = np.asarray(rows)
@@ -80,9 +80,9 @@ def execute(program, ctx):
 
     # independent residuals -------------------------------------------------
     def residuals(params, ev):
-        if eq in ("ode", "sysode"):
+        if eq in ("ode", "odevec", "sysode"):
             ts_ = jnp.asarray(ev["candidates"])
-            if eq == "ode":
+            if eq in ("ode", "odevec"):
                 f = jax.vmap(lambda t: P.loss.dynamic_loss.equation(t, P.u, params))
                 r = np.asarray(f(ts_))
                 return (r.reshape(r.shape[0], -1) ** 2).sum(axis=1)
@@ -110,8 +110,14 @@ def execute(program, ctx):
     nontriv = False
     steps_done = 0
     resh_between = False
+    # a resumed call takes the generator over: same active points
+    for (g_it, returned, taken) in T.bounds:
+        for store, pf, sel, samp in dims:
+            if active(returned, store, pf) != active(taken, store, pf):
+                fail("active-points-lost", f"on-resume/{store}", {"iteration": g_it}, g_it)
+        ctx.count("fault.stop_resume")
     for i in range(n):
-        before, after = T.snaps[i], T.snaps[i + 1]
+        before, after = T.snaps[i]
         stepped = after["rar_iter_nb"] > before["rar_iter_nb"]
         evs = by_it.get(i, [])
         if stepped and len(evs) != 1:
@@ -129,7 +135,7 @@ def execute(program, ctx):
         ev = evs[0]
         steps_done += 1
         # (a) candidates in the closed domain
-        if eq in ("ode", "sysode"):
+        if eq in ("ode", "odevec", "sysode"):
             c = np.asarray(ev["candidates"])
             if c.shape[0] != rp["sample_size_times"] or np.any(c < np.asarray(d["tmin"], c.dtype)) or np.any(c > np.asarray(d["tmax"], c.dtype)):
                 fail("candidates-out-of-domain", "times", {"iteration": i, "min": float(c.min()), "max": float(c.max())}, i)
@@ -148,18 +154,18 @@ def execute(program, ctx):
         rep = np.asarray(ev["sq_residuals"], dtype=np.float64)
         ok = False
         diffs = []
-        for pp in (T.params[i + 1], T.params[i]):
+        for pp in (T.params[i][1], T.params[i][0]):
             mine = np.asarray(residuals(pp, ev), dtype=np.float64)
             if mine.shape == rep.shape and ts.close(rep, mine, scale=100.0):
                 ok = True
                 break
             diffs.append(float(np.max(np.abs(mine - rep))) if mine.shape == rep.shape else "shape")
         if not ok:
-            stale = any(ts.close(rep, np.asarray(residuals(T.params[j], ev), dtype=np.float64), scale=100.0) for j in range(0, max(i, 0)))
+            stale = any(ts.close(rep, np.asarray(residuals(T.params[j][0], ev), dtype=np.float64), scale=100.0) for j in range(0, max(i, 0)))
             fail("residuals-not-of-current-network", "values", {"iteration": i, "maxdiffs": diffs, "matches_older_params": bool(stale)}, i)
         # (c) the selection is a top-k set of the reported residuals
         if eq != "nonstatio2":
-            sel = rp["selected_sample_size_times"] if eq in ("ode", "sysode") else rp["selected_sample_size_omega"]
+            sel = rp["selected_sample_size_times"] if eq in ("ode", "odevec", "sysode") else rp["selected_sample_size_omega"]
             idx = np.asarray(ev["selected_idx"]).reshape(-1)
             cand = np.asarray(ev["candidates"])
             pts = np.asarray(ev["selected_points"])
@@ -170,7 +176,7 @@ def execute(program, ctx):
             top = np.sort(rep)[::-1][:sel]
             if not np.array_equal(np.sort(rep[idx])[::-1], top):
                 fail("not-highest-residuals", "values", {"iteration": i, "selected": np.sort(rep[idx])[::-1].tolist(), "top": top.tolist()}, i)
-            selected = {"times" if eq in ("ode", "sysode") else "omega": pts}
+            selected = {"times" if eq in ("ode", "odevec", "sysode") else "omega": pts}
             if np.ptp(rep) > 0 and rep.shape[0] > sel:
                 nontriv = True
         else:
@@ -208,7 +214,7 @@ def execute(program, ctx):
                 inv = "active-points-lost" if lost else ("selected-points-not-active" if missing_new else "active-set")
                 fail(inv, f"at-step/{store}", {"iteration": i, "lost_active_rows": int(lost), "selected_rows_not_active": int(missing_new),
                                                "active_before": sum(a0.values()), "active_after": sum(a1.values())}, i)
-    Js, _ = model_steps(program, n)
+    Js, _, _ = model_steps(program)
     if T.m1 is not None:
         e1 = sorted(T.events_m1, key=lambda e: (int(e["iteration"]), int(e["step"])))
         if len(e1) != len(events) or any(int(a["iteration"]) != int(b["iteration"]) for a, b in zip(e1, events)):
@@ -235,10 +241,10 @@ def execute(program, ctx):
     if exhausted:
         ctx.count("fault.capacity_exhausted")
     ctx.nontrivial = nontriv
-    ctx.key = [eq, rar, d, n, program["net"]["key"]]
+    ctx.key = [eq, rar, d, [sg["n"] for sg in program["segments"]], program["net"]["key"]]
     ctx.state((eq, min(steps_done, 4), exhausted, (not two) or rar["n_start"] == rar["nt_start"], nontriv, resh_between))
     ctx.log.add("result", events=[[int(e["iteration"]), int(e["step"])] for e in events],
-                final=[T.snaps[-1].get("times"), T.snaps[-1].get("omega")])
+                final=[T.snaps[-1][1].get("times"), T.snaps[-1][1].get("omega")])
 
 
 def shrink(program):
